@@ -270,6 +270,8 @@ def construct(ex, this, s):
     k = skey(ex, this, "constructor")
     ex.check_access(this, 32, "std::string construction")
     ex.strings[k] = s
+    if conc(this.off) == 0 and this.obj.kind == "heap":
+        this.obj.tag.setdefault("class", "std::string")
     ex.events.append(("string_ctor", this.obj, conc(this.off)))
 
 
